@@ -12,7 +12,10 @@ cp -a /repo/bioscrape/*.cpp /repo/bioscrape/*.so "$d/bioscrape/"
 cp -a /repo/lineage/*.cpp "$d/lineage/"
 cp -a /repo/build "$d/build"
 if [ "$dir" = "reverse" ]; then opt="-R"; else opt=""; fi
-if ! git -C "$d" apply $opt "$patch"; then echo "PATCH-FAILED $name"; git -C /repo worktree remove --force "$d"; exit 3; fi
+if [ "$dir" = "revert" ]; then
+  # $patch is a commit id: let git undo it with a three-way merge (works when later commits touched the same lines)
+  if ! git -C "$d" revert --no-commit "$patch" >/dev/null 2>&1; then echo "PATCH-FAILED $name"; git -C /repo worktree remove --force "$d"; exit 3; fi
+elif ! git -C "$d" apply $opt "$patch"; then echo "PATCH-FAILED $name"; git -C /repo worktree remove --force "$d"; exit 3; fi
 mkdir -p "$d/_vout"
 for id in "$@"; do
   t0=$(date +%s)
